@@ -39,7 +39,7 @@ CLAIMED = {
  'C13': dict(world='GROUP', tech='deterministic simulation: seeded Add/New/Remove/Use histories on a Group whose matchers are Hosts / path-version / header-version / And / Or nests and simulated matcher components; reference "first acceptor on the original request" + stand-alone twin group',
              text='For every request the reference evaluates each router\'s matcher, in Add order, on a fresh copy of the request as originally received; the group\'s answer (status, handler, parameters incl. matcher-captured ones, path seen, router name, middleware trace) must equal the answer of a stand-alone twin containing only that router, or the group not-found component wrapped in the group\'s Use stack when nobody accepts.',
              note='matchers themselves are real code and are used by the reference on copies (their own correctness is C14/C15); simulated matchers obey the Matcher contract', ref='§5 C13'),
- 'C14': dict(world='GROUP', tech='deterministic simulation: seeded Add/Delete/RegisterInterceptor histories with random letter case on a Hosts matcher, probed with generated Host strings; lower-cased domain-set model + the C02 reference resolver; outcomes of other domains re-checked after every Delete',
+ 'C14': dict(world='GROUP', tech='deterministic simulation: seeded Add/Delete/RegisterInterceptor histories with random letter case on a Hosts matcher, probed with generated Host strings; lower-cased domain-set model + the C02 reference resolver; outcomes of other domains re-checked after every Delete; plus worlds with a locked Hosts mutated (one writer task per domain) and matched by concurrent tasks under the seeded statement-level scheduler, checked as single-writer registers over the recorded history and against the last write once quiescent',
              text='Hosts.Match must accept exactly when the independently normalised host resolves against the lower-cased set of registered domains under the reference resolver, leave exactly that pattern\'s parameters in the context (none on rejection), and every earlier probe of another domain must keep its outcome after any Delete, whatever letter case Add/Delete were called with.',
              note='after the first Delete only simple parameter values are probed (removal leaves split nodes split)', ref='§5 C14'),
  'C19': dict(world='TABLE (twin)', tech='deterministic simulation of twin worlds driven by one seed: a program of facade calls (named Prefix / nested Prefix / Resource objects, Handle, Remove, Clean, URL, Use) and its desugaring into plain Router calls, same op interleaving; observation-log equality after every step',
